@@ -32,6 +32,8 @@ token level.
 
 namespace Content
 
+set_option linter.unusedVariables false
+
 /-- The operations on `f32` that content.rs uses.
     `intDigits? r = some n`: `{}` prints `r` without a decimal point, as the digits of the integer `n`
     (`r` is finite and integral; `n` is the shortest decimal that reads back to `r`, padded with zeros, so
@@ -445,6 +447,191 @@ def name1 {R : Type} (st : PState R) (args : List (Prim R)) (f : String → Op R
   | some (s, _) => okPush st [f s]
   | none => fail st
 
+/-- the arm `BDC` of `OpBuilder::add` -/
+def addBDC {R : Type} (ro : RealOps R) (st : PState R) (args : List (Prim R)) : AddResult R :=
+  match popName args with
+  | some (tag, p :: _) => okPush st [.beginMarkedContent tag (some p)]
+  | _ => fail st
+
+/-- the arm `c` of `OpBuilder::add` -/
+def addC {R : Type} (ro : RealOps R) (st : PState R) (args : List (Prim R)) : AddResult R :=
+  match popNums ro 6 args with
+  | some ([a, b, c, d, e, f], _) =>
+    ⟨{ st.push [.curveTo ⟨a, b⟩ ⟨c, d⟩ ⟨e, f⟩] with last := ⟨e, f⟩ }, true⟩
+  | _ => fail st
+
+/-- the arm `cm` of `OpBuilder::add` -/
+def addCm {R : Type} (ro : RealOps R) (st : PState R) (args : List (Prim R)) : AddResult R :=
+  match popNums ro 6 args with
+  | some ([a, b, c, d, e, f], _) => okPush st [.transform ⟨a, b, c, d, e, f⟩]
+  | _ => fail st
+
+/-- the arm `d` of `OpBuilder::add` -/
+def addD {R : Type} (ro : RealOps R) (st : PState R) (args : List (Prim R)) : AddResult R :=
+  match args with
+  | .arr xs :: rest =>
+    match allSome (xs.map (asNumber ro)) with
+    | some pattern =>
+      match popNum ro rest with
+      | some (phase, _) => okPush st [.dash pattern phase]
+      | none => fail st
+    | none => fail st
+  | _ => fail st
+
+/-- the arm `DP` of `OpBuilder::add` -/
+def addDP {R : Type} (ro : RealOps R) (st : PState R) (args : List (Prim R)) : AddResult R :=
+  match popName args with
+  | some (tag, p :: _) => okPush st [.markedContentPoint tag (some p)]
+  | _ => fail st
+
+/-- the arm `j` of `OpBuilder::add` -/
+def addJLower {R : Type} (ro : RealOps R) (st : PState R) (args : List (Prim R)) : AddResult R :=
+  match popInt args with
+  | some (n, _) => match finOfInt 3 n with
+    | some j => okPush st [.lineJoin j]
+    | none => fail st
+  | none => fail st
+
+/-- the arm `J` of `OpBuilder::add` -/
+def addJUpper {R : Type} (ro : RealOps R) (st : PState R) (args : List (Prim R)) : AddResult R :=
+  match popInt args with
+  | some (n, _) => match finOfInt 3 n with
+    | some c => okPush st [.lineCap c]
+    | none => fail st
+  | none => fail st
+
+/-- the arm `K` of `OpBuilder::add` -/
+def addKUpper {R : Type} (ro : RealOps R) (st : PState R) (args : List (Prim R)) : AddResult R :=
+  match popNums ro 4 args with
+  | some ([c, m, y, k], _) => okPush st [.strokeColor (.cmyk c m y k)]
+  | _ => fail st
+
+/-- the arm `k` of `OpBuilder::add` -/
+def addKLower {R : Type} (ro : RealOps R) (st : PState R) (args : List (Prim R)) : AddResult R :=
+  match popNums ro 4 args with
+  | some ([c, m, y, k], _) => okPush st [.fillColor (.cmyk c m y k)]
+  | _ => fail st
+
+/-- the arm `l` of `OpBuilder::add` -/
+def addL {R : Type} (ro : RealOps R) (st : PState R) (args : List (Prim R)) : AddResult R :=
+  match popNums ro 2 args with
+  | some ([x, y], _) => ⟨{ st.push [.lineTo ⟨x, y⟩] with last := ⟨x, y⟩ }, true⟩
+  | _ => fail st
+
+/-- the arm `m` of `OpBuilder::add` -/
+def addM {R : Type} (ro : RealOps R) (st : PState R) (args : List (Prim R)) : AddResult R :=
+  match popNums ro 2 args with
+  | some ([x, y], _) => ⟨{ st.push [.moveTo ⟨x, y⟩] with last := ⟨x, y⟩, start := ⟨x, y⟩ }, true⟩
+  | _ => fail st
+
+/-- the arm `re` of `OpBuilder::add` -/
+def addRe {R : Type} (ro : RealOps R) (st : PState R) (args : List (Prim R)) : AddResult R :=
+  match popNums ro 4 args with
+  | some ([x, y, w, h], _) => ⟨{ st.push [.rect x y w h] with last := ⟨x, y⟩, start := ⟨x, y⟩ }, true⟩
+  | _ => fail st
+
+/-- the arm `RG` of `OpBuilder::add` -/
+def addRGUpper {R : Type} (ro : RealOps R) (st : PState R) (args : List (Prim R)) : AddResult R :=
+  match popNums ro 3 args with
+  | some ([r, g, b], _) => okPush st [.strokeColor (.rgb r g b)]
+  | _ => fail st
+
+/-- the arm `rg` of `OpBuilder::add` -/
+def addRgLower {R : Type} (ro : RealOps R) (st : PState R) (args : List (Prim R)) : AddResult R :=
+  match popNums ro 3 args with
+  | some ([r, g, b], _) => okPush st [.fillColor (.rgb r g b)]
+  | _ => fail st
+
+/-- the arm `ri` of `OpBuilder::add` -/
+def addRi {R : Type} (ro : RealOps R) (st : PState R) (args : List (Prim R)) : AddResult R :=
+  match popName args with
+  | some (s, _) => match intentOfName s with
+    | some i => okPush st [.renderingIntent i]
+    | none => fail st
+  | none => fail st
+
+/-- the arm `Td` of `OpBuilder::add` -/
+def addTdLower {R : Type} (ro : RealOps R) (st : PState R) (args : List (Prim R)) : AddResult R :=
+  match popNums ro 2 args with
+  | some ([x, y], _) => okPush st [.moveTextPosition ⟨x, y⟩]
+  | _ => fail st
+
+/-- the arm `TD` of `OpBuilder::add` -/
+def addTDUpper {R : Type} (ro : RealOps R) (st : PState R) (args : List (Prim R)) : AddResult R :=
+  match popNums ro 2 args with
+  | some ([x, y], _) => okPush st [.leading (ro.neg y), .moveTextPosition ⟨x, y⟩]
+  | _ => fail st
+
+/-- the arm `Tf` of `OpBuilder::add` -/
+def addTf {R : Type} (ro : RealOps R) (st : PState R) (args : List (Prim R)) : AddResult R :=
+  match popName args with
+  | some (name, rest) => match popNum ro rest with
+    | some (size, _) => okPush st [.textFont name size]
+    | none => fail st
+  | none => fail st
+
+/-- the arm `Tj` of `OpBuilder::add` -/
+def addTjLower {R : Type} (ro : RealOps R) (st : PState R) (args : List (Prim R)) : AddResult R :=
+  match popStr args with
+  | some (bs, _) => okPush st [.textDraw bs]
+  | none => fail st
+
+/-- the arm `TJ` of `OpBuilder::add` -/
+def addTJUpper {R : Type} (ro : RealOps R) (st : PState R) (args : List (Prim R)) : AddResult R :=
+  match args with
+  | [] => okPush st [.textDrawAdjusted []]
+  | .arr xs :: _ => match allSome (xs.map (tdaOfPrim ro)) with
+    | some arr => okPush st [.textDrawAdjusted arr]
+    | none => fail st
+  | _ => fail st
+
+/-- the arm `Tm` of `OpBuilder::add` -/
+def addTm {R : Type} (ro : RealOps R) (st : PState R) (args : List (Prim R)) : AddResult R :=
+  match popNums ro 6 args with
+  | some ([a, b, c, d, e, f], _) => okPush st [.setTextMatrix ⟨a, b, c, d, e, f⟩]
+  | _ => fail st
+
+/-- the arm `Tr` of `OpBuilder::add` -/
+def addTr {R : Type} (ro : RealOps R) (st : PState R) (args : List (Prim R)) : AddResult R :=
+  match popInt args with
+  | some (n, _) => match finOfInt 8 n with
+    | some m => okPush st [.textRenderMode m]
+    | none => fail st
+  | none => fail st
+
+/-- the arm `v` of `OpBuilder::add` -/
+def addV {R : Type} (ro : RealOps R) (st : PState R) (args : List (Prim R)) : AddResult R :=
+  match popNums ro 4 args with
+  | some ([a, b, c, d], _) =>
+    ⟨{ st.push [.curveTo st.last ⟨a, b⟩ ⟨c, d⟩] with last := ⟨c, d⟩ }, true⟩
+  | _ => fail st
+
+/-- the arm `y` of `OpBuilder::add` -/
+def addY {R : Type} (ro : RealOps R) (st : PState R) (args : List (Prim R)) : AddResult R :=
+  match popNums ro 4 args with
+  | some ([a, b, c, d], _) =>
+    ⟨{ st.push [.curveTo ⟨a, b⟩ ⟨c, d⟩ ⟨c, d⟩] with last := ⟨c, d⟩ }, true⟩
+  | _ => fail st
+
+/-- the arm `'` of `OpBuilder::add` -/
+def addQuote {R : Type} (ro : RealOps R) (st : PState R) (args : List (Prim R)) : AddResult R :=
+  -- `push(TextNewline)` happens before the operand is looked at
+  match popStr args with
+  | some (bs, _) => okPush st [.textNewline, .textDraw bs]
+  | none => fail (st.push [.textNewline])
+
+/-- the arm `"` of `OpBuilder::add` -/
+def addDQuote {R : Type} (ro : RealOps R) (st : PState R) (args : List (Prim R)) : AddResult R :=
+  match popNum ro args with
+  | none => fail st
+  | some (ws, r1) =>
+    match popNum ro r1 with
+    | none => fail (st.push [.wordSpacing ws])
+    | some (cs, r2) =>
+      match popStr r2 with
+      | none => fail (st.push [.wordSpacing ws, .charSpacing cs, .textNewline])
+      | some (bs, _) => okPush st [.wordSpacing ws, .charSpacing cs, .textNewline, .textDraw bs]
+
 /-- `OpBuilder::add(op, args, lexer, resolve)` for every operator except `BI` (see `step`) -/
 def add {R : Type} (ro : RealOps R) (st : PState R) (op : String) (args : List (Prim R)) : AddResult R :=
   if op = "b" then ⟨{ st.push [.close, .fillAndStroke .nonZero] with last := st.start }, true⟩
@@ -452,41 +639,19 @@ def add {R : Type} (ro : RealOps R) (st : PState R) (op : String) (args : List (
   else if op = "b*" then ⟨{ st.push [.close, .fillAndStroke .evenOdd] with last := st.start }, true⟩
   else if op = "B*" then okPush st [.fillAndStroke .evenOdd]
   else if op = "BI" then fail st   -- a bare `BI` keyword: see `Tok.bi`; never produced by the tokeniser of the check
-  else if op = "BDC" then
-    match popName args with
-    | some (tag, p :: _) => okPush st [.beginMarkedContent tag (some p)]
-    | _ => fail st
+  else if op = "BDC" then addBDC ro st args
   else if op = "BMC" then name1 st args (fun tag => .beginMarkedContent tag none)
   else if op = "BT" then okPush st [.beginText]
   else if op = "BX" then ⟨{ st with compat := true }, true⟩
-  else if op = "c" then
-    match popNums ro 6 args with
-    | some ([a, b, c, d, e, f], _) =>
-      ⟨{ st.push [.curveTo ⟨a, b⟩ ⟨c, d⟩ ⟨e, f⟩] with last := ⟨e, f⟩ }, true⟩
-    | _ => fail st
-  else if op = "cm" then
-    match popNums ro 6 args with
-    | some ([a, b, c, d, e, f], _) => okPush st [.transform ⟨a, b, c, d, e, f⟩]
-    | _ => fail st
+  else if op = "c" then addC ro st args
+  else if op = "cm" then addCm ro st args
   else if op = "CS" then name1 st args .strokeColorSpace
   else if op = "cs" then name1 st args .fillColorSpace
-  else if op = "d" then
-    match args with
-    | .arr xs :: rest =>
-      match allSome (xs.map (asNumber ro)) with
-      | some pattern =>
-        match popNum ro rest with
-        | some (phase, _) => okPush st [.dash pattern phase]
-        | none => fail st
-      | none => fail st
-    | _ => fail st
+  else if op = "d" then addD ro st args
   else if op = "d0" then ⟨st, true⟩
   else if op = "d1" then ⟨st, true⟩
   else if op = "Do" ∨ op = "Do0" then name1 st args .xObject
-  else if op = "DP" then
-    match popName args with
-    | some (tag, p :: _) => okPush st [.markedContentPoint tag (some p)]
-    | _ => fail st
+  else if op = "DP" then addDP ro st args
   else if op = "EI" then fail st
   else if op = "EMC" then okPush st [.endMarkedContent]
   else if op = "ET" then okPush st [.endText]
@@ -499,57 +664,21 @@ def add {R : Type} (ro : RealOps R) (st : PState R) (op : String) (args : List (
   else if op = "h" then ⟨{ st.push [.close] with last := st.start }, true⟩
   else if op = "i" then one1 ro st args .flatness
   else if op = "ID" then fail st
-  else if op = "j" then
-    match popInt args with
-    | some (n, _) => match finOfInt 3 n with
-      | some j => okPush st [.lineJoin j]
-      | none => fail st
-    | none => fail st
-  else if op = "J" then
-    match popInt args with
-    | some (n, _) => match finOfInt 3 n with
-      | some c => okPush st [.lineCap c]
-      | none => fail st
-    | none => fail st
-  else if op = "K" then
-    match popNums ro 4 args with
-    | some ([c, m, y, k], _) => okPush st [.strokeColor (.cmyk c m y k)]
-    | _ => fail st
-  else if op = "k" then
-    match popNums ro 4 args with
-    | some ([c, m, y, k], _) => okPush st [.fillColor (.cmyk c m y k)]
-    | _ => fail st
-  else if op = "l" then
-    match popNums ro 2 args with
-    | some ([x, y], _) => ⟨{ st.push [.lineTo ⟨x, y⟩] with last := ⟨x, y⟩ }, true⟩
-    | _ => fail st
-  else if op = "m" then
-    match popNums ro 2 args with
-    | some ([x, y], _) => ⟨{ st.push [.moveTo ⟨x, y⟩] with last := ⟨x, y⟩, start := ⟨x, y⟩ }, true⟩
-    | _ => fail st
+  else if op = "j" then addJLower ro st args
+  else if op = "J" then addJUpper ro st args
+  else if op = "K" then addKUpper ro st args
+  else if op = "k" then addKLower ro st args
+  else if op = "l" then addL ro st args
+  else if op = "m" then addM ro st args
   else if op = "M" then one1 ro st args .miterLimit
   else if op = "MP" then name1 st args (fun tag => .markedContentPoint tag none)
   else if op = "n" then okPush st [.endPath]
   else if op = "q" then okPush st [.save]
   else if op = "Q" then okPush st [.restore]
-  else if op = "re" then
-    match popNums ro 4 args with
-    | some ([x, y, w, h], _) => ⟨{ st.push [.rect x y w h] with last := ⟨x, y⟩, start := ⟨x, y⟩ }, true⟩
-    | _ => fail st
-  else if op = "RG" then
-    match popNums ro 3 args with
-    | some ([r, g, b], _) => okPush st [.strokeColor (.rgb r g b)]
-    | _ => fail st
-  else if op = "rg" then
-    match popNums ro 3 args with
-    | some ([r, g, b], _) => okPush st [.fillColor (.rgb r g b)]
-    | _ => fail st
-  else if op = "ri" then
-    match popName args with
-    | some (s, _) => match intentOfName s with
-      | some i => okPush st [.renderingIntent i]
-      | none => fail st
-    | none => fail st
+  else if op = "re" then addRe ro st args
+  else if op = "RG" then addRGUpper ro st args
+  else if op = "rg" then addRgLower ro st args
+  else if op = "ri" then addRi ro st args
   else if op = "s" then ⟨{ st.push [.close, .stroke] with last := st.start }, true⟩
   else if op = "S" then okPush st [.stroke]
   else if op = "SC" ∨ op = "SCN" then okPush st [.strokeColor (.other args)]
@@ -557,73 +686,24 @@ def add {R : Type} (ro : RealOps R) (st : PState R) (op : String) (args : List (
   else if op = "sh" then name1 st args .shade
   else if op = "T*" then okPush st [.textNewline]
   else if op = "Tc" then one1 ro st args .charSpacing
-  else if op = "Td" then
-    match popNums ro 2 args with
-    | some ([x, y], _) => okPush st [.moveTextPosition ⟨x, y⟩]
-    | _ => fail st
-  else if op = "TD" then
-    match popNums ro 2 args with
-    | some ([x, y], _) => okPush st [.leading (ro.neg y), .moveTextPosition ⟨x, y⟩]
-    | _ => fail st
-  else if op = "Tf" then
-    match popName args with
-    | some (name, rest) => match popNum ro rest with
-      | some (size, _) => okPush st [.textFont name size]
-      | none => fail st
-    | none => fail st
-  else if op = "Tj" then
-    match popStr args with
-    | some (bs, _) => okPush st [.textDraw bs]
-    | none => fail st
-  else if op = "TJ" then
-    match args with
-    | [] => okPush st [.textDrawAdjusted []]
-    | .arr xs :: _ => match allSome (xs.map (tdaOfPrim ro)) with
-      | some arr => okPush st [.textDrawAdjusted arr]
-      | none => fail st
-    | _ => fail st
+  else if op = "Td" then addTdLower ro st args
+  else if op = "TD" then addTDUpper ro st args
+  else if op = "Tf" then addTf ro st args
+  else if op = "Tj" then addTjLower ro st args
+  else if op = "TJ" then addTJUpper ro st args
   else if op = "TL" then one1 ro st args .leading
-  else if op = "Tm" then
-    match popNums ro 6 args with
-    | some ([a, b, c, d, e, f], _) => okPush st [.setTextMatrix ⟨a, b, c, d, e, f⟩]
-    | _ => fail st
-  else if op = "Tr" then
-    match popInt args with
-    | some (n, _) => match finOfInt 8 n with
-      | some m => okPush st [.textRenderMode m]
-      | none => fail st
-    | none => fail st
+  else if op = "Tm" then addTm ro st args
+  else if op = "Tr" then addTr ro st args
   else if op = "Ts" then one1 ro st args .textRise
   else if op = "Tw" then one1 ro st args .wordSpacing
   else if op = "Tz" then one1 ro st args .textScaling
-  else if op = "v" then
-    match popNums ro 4 args with
-    | some ([a, b, c, d], _) =>
-      ⟨{ st.push [.curveTo st.last ⟨a, b⟩ ⟨c, d⟩] with last := ⟨c, d⟩ }, true⟩
-    | _ => fail st
+  else if op = "v" then addV ro st args
   else if op = "w" then one1 ro st args .lineWidth
   else if op = "W" then okPush st [.clip .nonZero]
   else if op = "W*" then okPush st [.clip .evenOdd]
-  else if op = "y" then
-    match popNums ro 4 args with
-    | some ([a, b, c, d], _) =>
-      ⟨{ st.push [.curveTo ⟨a, b⟩ ⟨c, d⟩ ⟨c, d⟩] with last := ⟨c, d⟩ }, true⟩
-    | _ => fail st
-  else if op = "'" then
-    -- `push(TextNewline)` happens before the operand is looked at
-    match popStr args with
-    | some (bs, _) => okPush st [.textNewline, .textDraw bs]
-    | none => fail (st.push [.textNewline])
-  else if op = "\"" then
-    match popNum ro args with
-    | none => fail st
-    | some (ws, r1) =>
-      match popNum ro r1 with
-      | none => fail (st.push [.wordSpacing ws])
-      | some (cs, r2) =>
-        match popStr r2 with
-        | none => fail (st.push [.wordSpacing ws, .charSpacing cs, .textNewline])
-        | some (bs, _) => okPush st [.wordSpacing ws, .charSpacing cs, .textNewline, .textDraw bs]
+  else if op = "y" then addY ro st args
+  else if op = "'" then addQuote ro st args
+  else if op = "\"" then addDQuote ro st args
   else if st.compat then ⟨st, true⟩
   else fail st
 
